@@ -415,7 +415,7 @@ impl FromStr for Datetime {
                 nanosecond,
             };
 
-            if time.hour > 24 {
+            if time.hour > 23 {
                 return Err(DatetimeParseError {});
             }
             if time.minute > 59 {
@@ -461,6 +461,10 @@ impl FromStr for Datetime {
 
                 let hours = h1 * 10 + h2;
                 let minutes = m1 * 10 + m2;
+
+                if hours > 23 || minutes > 59 {
+                    return Err(DatetimeParseError {});
+                }
 
                 let total_minutes = sign * (hours * 60 + minutes);
 
